@@ -310,6 +310,21 @@ def misc_text_case(r):
         t = repr(x)
         steps.append(Step("fmtnum " + impl.hexs(t), 1, eq(["ok " + impl.hexs(formatNumber(x))]),
                           label="fmtnum " + t))
+    elif k < 0.68:
+        # the Lean reference reader of C19 (Spec/Reader.lean) against the Python reference reader
+        from .refprinter import read_words
+        if r.random() < 0.6:
+            words = []
+            for _k in range(r.randint(0, 6)):
+                words.append(r.choice("XYZEFSPTIJRxyze") + r.choice(["", " ", "  "]) +
+                             r.choice(["1", "1.5", "-2", ".5", "+1.", "", "10.25", "-0", "007", "1.", "+.5",
+                                       "-12.", "3.", "-", "+", ".", "1.2.3", "--1", "1e5", "- 1"]))
+            t = r.choice(["", " ", "  "]).join(words)
+        else:
+            t = "".join(r.choice("XYEeZ0123456789 .-+\tab()=é") for _ in range(r.randint(0, 14)))
+        _code, words = read_words("G1 " + t)
+        exp = ",".join("%s:%s" % (l, impl.fnum(v)) for (l, v, _t) in words) or "-"
+        steps.append(Step("specwords " + impl.hexs(t), 1, eq(["ok " + exp]), label="specwords %r" % t))
     elif k < 0.7:
         t = rand_line(r, 0.3)
         steps.append(Step("checksum " + impl.hexs(t), 1,
